@@ -1201,3 +1201,11 @@ func init() {
 		Edits:  []Edit{{"internal/server/stats.go", "\tvar ms = []map[string]interface{}{}\n", "\tvar ms = []map[string]interface{}{}\n\tm := make(map[string]interface{}, 4)\n"}},
 		Expect: "R17.no-shared-element", Key: "cmdSTATS→append(ms, m)", Why: "the seeded change C17d: every element of the JSON list is the same map"})
 }
+
+func init() {
+	// ---- R9.rewrite-sees-every-collection: a repaired scratch copy must be silent -------------------------------
+	mutant(&Mutant{Name: "neutral-rename-refused-during-rewrite", Props: []string{"C09"}, File: fCrud, Neutral: true,
+		Old: "\tvar updated bool\n\tnewCol, _ := s.cols.Get(newKey)\n",
+		New: "\tif s.shrinking {\n\t\treturn retwerr(errKeyHasHooksSet)\n\t}\n\tvar updated bool\n\tnewCol, _ := s.cols.Get(newKey)\n",
+		Why: "not behaviour-preserving: one possible repair of the known finding F30 (RENAME refused while a rewrite runs); the rule must be silent on it"})
+}
